@@ -28,7 +28,9 @@ type Violation struct {
 }
 
 func digest(r *Result) string {
-	return fmt.Sprintf("exit=%d out=%v/%s/%o stdout=%s", r.Exit, r.Out.Exists, short(r.Out.Sha), r.Out.Mode, short(shaStr(r.Stdout)))
+	// the absolute input root carries the name of this process's private directory: not part of the outcome
+	so := strings.ReplaceAll(r.Stdout, absRoot(), "$ABSROOT")
+	return fmt.Sprintf("exit=%d out=%v/%s/%o stdout=%s", r.Exit, r.Out.Exists, short(r.Out.Sha), r.Out.Mode, short(shaStr(so)))
 }
 
 func short(s string) string {
